@@ -117,6 +117,7 @@ class _FnWalker:
         self.decl_lines: dict[str, int] = {}
         self.loop_stack: list = []
         self.decl_stack: dict = {}
+        self.accesses: list = []  # (base, [subscripts], dims, line, loop bounds snapshot)
         self.scalar_write_ctx: list = []  # (name, line, loop stack)
         self.parallel: dict = {}  # loop symbol -> OMP directive node
 
@@ -134,6 +135,7 @@ class _FnWalker:
         s.params = self.params
         s.loopvars = self.loopvars
         s.decl_stack = self.decl_stack
+        s.accesses = self.accesses
         return s
 
     def _sw(self, nm, line):
@@ -198,6 +200,12 @@ class _FnWalker:
         cur = cast.strip(cur)
         if cur.get("kind") == "DeclRefExpr":
             nm = cur["referencedDecl"]["name"]
+            qt = self.params.get(nm) or self.local_types.get(nm) or cast.qtype(cur)
+            _, dims, _ = type_dims(qt)
+            if nm in self.alias:
+                dims = self.alias[nm][2]
+            if dims:
+                self.accesses.append((nm, list(idx), list(dims), self.tu.line(e) or 0, dict(self.loopvars)))
             return nm, idx, cast.qtype(cur), cur["referencedDecl"].get("kind")
         if cur.get("kind") == "UnaryOperator" and cur.get("opcode") == "*":
             inner = cast.strip(cast.kids(cur)[0])
